@@ -1,6 +1,6 @@
 #!/bin/sh
 # run every claimed check (quick) on the current tree; print a one-line summary each
-cd /verif || exit 2
+cd "$(dirname "$0")/.." || exit 2
 for id in $(python3 -c "
 import json
 for c in json.load(open('MANIFEST.json'))['checks']: print(c['property_id'])"); do
